@@ -1142,12 +1142,12 @@ func tupleRepeat(elems Tuple, n Int) (Tuple, error) {
 	if len(elems) == 0 {
 		return nil, nil
 	}
+	if n.Sign() <= 0 {
+		return nil, nil
+	}
 	i, err := AsInt32(n)
 	if err != nil {
 		return nil, fmt.Errorf("repeat count %s too large", n)
-	}
-	if i < 1 {
-		return nil, nil
 	}
 	// Inv: i > 0, len > 0
 	of, sz := bits.Mul(uint(len(elems)), uint(i))
@@ -1174,12 +1174,12 @@ func stringRepeat(s String, n Int) (String, error) {
 	if s == "" {
 		return "", nil
 	}
+	if n.Sign() <= 0 {
+		return "", nil
+	}
 	i, err := AsInt32(n)
 	if err != nil {
 		return "", fmt.Errorf("repeat count %s too large", n)
-	}
-	if i < 1 {
-		return "", nil
 	}
 	// Inv: i > 0, len > 0
 	of, sz := bits.Mul(uint(len(s)), uint(i))
@@ -1261,6 +1261,11 @@ func slice(x, lo, hi, step_ Value) (Value, error) {
 	if step_ != None {
 		var err error
 		step, err = AsInt32(step_)
+		if i, ok := step_.(Int); ok && err != nil {
+			// A stride beyond the int32 range selects at most one element,
+			// exactly like a stride of n+1.
+			step, err = (n+1)*i.Sign(), nil
+		}
 		if err != nil {
 			return nil, fmt.Errorf("invalid slice step: %s", err)
 		}
@@ -1353,14 +1358,25 @@ func indices(start_, end_ Value, len int) (start, end int, err error) {
 // if it is negative.  If v is nil or None, *result is unchanged.
 func asIndex(v Value, len int, result *int) error {
 	if v != nil && v != None {
-		var err error
-		*result, err = AsInt32(v)
+		i, err := AsInt32(v)
 		if err != nil {
+			if big, ok := v.(Int); ok {
+				// An index beyond the int32 range is clamped like any
+				// other out-of-range index: callers truncate len to the
+				// end of the sequence and -1 to its start.
+				if big.Sign() > 0 {
+					*result = len
+				} else {
+					*result = -1
+				}
+				return nil
+			}
 			return err
 		}
-		if *result < 0 {
-			*result += len
+		if i < 0 {
+			i += len
 		}
+		*result = i
 	}
 	return nil
 }
